@@ -61,6 +61,31 @@ type rig struct {
 	lateHash int // hash of the held announcer, 0 = none
 	lateKind int // 2 = first announcer of its item (holds the manager mutex), 1 = further announcer
 	seen     map[int]bool
+	// announcers pre-empted at the cap evaluation (AnnounceHold): parked inside holder.MaxParallelPulls()
+	holdCap int32
+	capHeld chan chan struct{}
+	capw    map[[2]int]*capWaiter
+}
+
+type capWaiter struct {
+	release chan struct{}
+	done    chan struct{}
+}
+
+// gateHolder is the real DefaultHolder with a scheduling gate inside MaxParallelPulls(): the value it
+// returns is the holder's own.
+type gateHolder struct {
+	pushpull.Holder
+	r *rig
+}
+
+func (g *gateHolder) MaxParallelPulls() uint32 {
+	if atomic.CompareAndSwapInt32(&g.r.holdCap, 1, 0) {
+		rel := make(chan struct{})
+		g.r.capHeld <- rel
+		<-rel
+	}
+	return g.Holder.MaxParallelPulls()
 }
 
 func pid(p int) peer.ID        { return peer.ID(fmt.Sprintf("p%d", p)) }
@@ -103,12 +128,13 @@ func newRig(delayTicks int, hashes int) *rig {
 	clk := vclock.New(time.Unix(1700000000, 0), time.Second)
 	verifclock.Set(clk)
 	r := &rig{clk: clk, goTop: make(chan struct{}), loopEv: make(chan string, 16), hashes: hashes, seen: map[int]bool{},
-		held: make(chan struct{}, 1), release: make(chan struct{}), annDone: make(chan struct{}, 1)}
+		held: make(chan struct{}, 1), release: make(chan struct{}), annDone: make(chan struct{}, 1),
+		capHeld: make(chan chan struct{}, 1), capw: map[[2]int]*capWaiter{}}
 	r.trk = pushpull.NewDefaultPushTracker(time.Duration(delayTicks) * time.Second)
 	current.Store(r)
 	r.holder = pushpull.NewDefaultHolder(3, r.trk) // starts the loop and gc goroutines
 	r.mgr = protocol.NewPushPullManager()
-	r.mgr.VerifAddEntryHolder(pushTx, r.holder)
+	r.mgr.VerifAddEntryHolder(pushTx, &gateHolder{Holder: r.holder, r: r})
 	r.mgr.Run()
 	r.waitLoop() // loop reaches its first LoopTop
 	return r
@@ -217,6 +243,37 @@ func (r *rig) do(s step, delay int64) tr.M {
 			atomic.StoreInt32(&r.holdReg, 0)
 			eff = "Announce"
 		}
+	case "AnnounceHold":
+		if r.lateKind == 2 && r.lateHash != 0 && !r.seen[s.H] || r.capw[[2]int{s.P, s.H}] != nil {
+			eff = "Skip"
+			break
+		}
+		if !r.holder.Has(hsh(s.H)) {
+			r.seen[s.H] = true
+		}
+		w := &capWaiter{done: make(chan struct{}, 1)}
+		atomic.StoreInt32(&r.holdCap, 1)
+		go func() {
+			r.mgr.VerifAddPush(pid(s.P), pushTx, hsh(s.H))
+			w.done <- struct{}{}
+		}()
+		select {
+		case w.release = <-r.capHeld:
+			r.capw[[2]int{s.P, s.H}] = w
+		case <-w.done:
+			// the announcement never evaluated the cap (known item or first announcer)
+			atomic.StoreInt32(&r.holdCap, 0)
+			eff = "Announce"
+		}
+	case "AnnounceResume":
+		w := r.capw[[2]int{s.P, s.H}]
+		if w == nil {
+			eff = "Skip"
+			break
+		}
+		delete(r.capw, [2]int{s.P, s.H})
+		close(w.release)
+		<-w.done
 	case "RegisterLate":
 		if r.lateHash != s.H {
 			eff = "Skip"
@@ -285,6 +342,10 @@ func main() {
 		if r.lateHash != 0 {
 			r.release <- struct{}{}
 			<-r.annDone
+		}
+		for _, cw := range r.capw {
+			close(cw.release)
+			<-cw.done
 		}
 		n++
 	})
